@@ -14,6 +14,7 @@ mod engines {
 	pub mod input;
 	pub mod json;
 	pub mod tomlorder;
+	pub mod msgpack;
 }
 mod props {
 	pub mod c01;
@@ -27,6 +28,7 @@ mod props {
 	pub mod c07;
 	pub mod c11;
 	pub mod c09;
+	pub mod c18;
 }
 mod corpus;
 mod gen;
@@ -39,6 +41,17 @@ use out::Out;
 use util::Rng;
 
 fn main() {
+	// Deeply nested inputs are translated in-process: give the worker the
+	// stack of a generous main thread (the real binaries are run separately
+	// on their default stacks by the C18 statements).
+	let worker = std::thread::Builder::new().stack_size(1 << 30).spawn(real_main).expect("spawn worker");
+	match worker.join() {
+		Ok(()) => {}
+		Err(_) => std::process::exit(101),
+	}
+}
+
+fn real_main() {
 	let args: Vec<String> = std::env::args().collect();
 	if args.len() >= 6 && args[1] == "run" {
 		// Panics inside xt are caught per case; keep the default hook quiet.
@@ -104,6 +117,11 @@ fn main() {
 			// Development entry for the JSON model slice (not a property id).
 			"JSONDEV" => {
 				engines::json::run(&mut out, &mut rng.fork(), thorough);
+			}
+			"C18" => {
+				engines::msgpack::run_size(&mut out, &mut rng.fork(), thorough);
+				engines::msgpack::run_decode(&mut out, &mut rng.fork(), thorough);
+				props::c18::run(&mut out, &mut rng.fork(), thorough);
 			}
 			_ => {
 				eprintln!("unknown property {prop}");
